@@ -53,6 +53,23 @@ def check_c13(pid, tier, seed, qv):
     hmeta, fmeta = {}, {}
     fkey = {}
     hid, fid = 0, 0
+    def clone_family():
+        """hand-written Clone impls carry flags and bounds: every flag combination of separated_by / repeated / labelled,
+        through the structural-clone wrapper, on inputs that tell the flags apart"""
+        fam = []
+        for lead in (0, 1):
+            for trail in (0, 1):
+                for lo, hi in ((0, "inf"), (1, 2)):
+                    for fin in (lambda i: ["Collect", "CVec", i], lambda i: ["RepUnit", i], lambda i: ["Collect", "CCount", ["IEnum", i]]):
+                        fam.append((fin(["ISep", ["Just", [A]], ["Just", [COMMA]], lo, hi, lead, trail]),
+                                    [[COMMA, A, COMMA, A], [A, COMMA, A, COMMA], [A, COMMA, A], [COMMA, A, COMMA, A, COMMA], [A], [], [A, COMMA, A, COMMA, A]]))
+        for lo, hi in ((0, "inf"), (1, 2), (2, 2), (0, 1)):
+            fam.append((["Collect", "CVec", ["IRep", ["Just", [A]], lo, hi]], [[], [A], [A, A], [A, A, A]]))
+            fam.append((["RepUnit", ["IRep", ["Just", [A]], lo, hi]], [[], [A], [A, A], [A, A, A]]))
+        for ctx in (0, 1):
+            fam.append((["Labelled", 3, ctx, ["Then", ["Just", [A]], ["Labelled", 4, 1 - ctx, ["Just", [B]]]]], [[A, B], [A], [B], [A, A]]))
+        return fam
+    work = []
     for gi in range(ngram):
         c = rng.random()
         if c < 0.2: g = G.memoize(G.g(rng.randint(2, 3)), 0.4)
@@ -62,14 +79,18 @@ def check_c13(pid, tier, seed, qv):
         allinp = inputs_for(rng, g, ALPHA, extra_alpha=[EURO] if rng.random() < 0.2 else [])
         rng.shuffle(allinp)
         pool = allinp[:rng.choice([2, 2, 3, 3, 4, 5])]
-        ik = rng.choice(["str", "slice"])
-        ek = "rich" if rng.random() < 0.8 else "simple"
         hs = histories(rng, pool, tier)
         if len(hs) > (10 if tier == "quick" else 40):
             rng.shuffle(hs); hs = hs[:10 if tier == "quick" else 40]
-        for h in hs:
+        work.append((g, pool, hs, None))
+    for g, pool in clone_family():
+        work.append((g, pool, [list(range(len(pool))), list(reversed(range(len(pool))))], ["clone", "value"]))
+    for gi, (g, pool, hs, ws) in enumerate(work):
+        ik = rng.choice(["str", "slice"])
+        ek = "rich" if rng.random() < 0.8 else "simple"
+        for j, h in enumerate(hs):
             hid += 1
-            w = WRAPPERS[hid % len(WRAPPERS)]
+            w = ws[j % len(ws)] if ws else WRAPPERS[hid % len(WRAPPERS)]
             hlines.append(sx(["H", hid, ik, ek, w, g, [pool[i] for i in h]]))
             hmeta[hid] = dict(g=g, ik=ik, ek=ek, w=w, pool=pool, h=h)
         for i, inp in enumerate(pool):
@@ -102,7 +123,7 @@ def check_c13(pid, tier, seed, qv):
     seen = set()
     for hid_, m in hmeta.items():
         r = hres.get(hid_, "MISSING")
-        if r.startswith("UNSUPPORTED") or "UNSUPPORTED" in r:
+        if r.startswith(("UNSUPPORTED", "SKIPPED")) or "UNSUPPORTED" in r:
             res["stats"]["unsupported"] += 1; continue
         if not r.startswith("H"):
             purity_bad.append((hid_, -1, r, "no result line")); continue
@@ -118,7 +139,7 @@ def check_c13(pid, tier, seed, qv):
             fresh = fimpl.get(f, "MISSING")
             res["stats"]["history_parses"] += 1
             res["stats"]["evaluations"] += 1
-            if fresh.startswith("UNSUPPORTED"): continue
+            if fresh.startswith(("UNSUPPORTED", "SKIPPED")): continue
             if got != fresh:
                 purity_bad.append((hid_, pos, got, fresh))
             ri, rm, rs = Res(fresh), Res(fmach.get(f, "MISSING")), Res(fsem.get(f, "MISSING"))
